@@ -99,6 +99,7 @@ theorem timeAt_congr (idx : Nat) {k k' : Key} (h : cmpList k k' = 0) : (timeAt i
 structure WLaws (wl : WKey → WKey → Bool) : Prop where
   eqv_iff : ∀ a b : WKey, eqv wl a b = true ↔ (a.t.ns = b.t.ns ∧ keq a.key b.key = true)
   time_mono : ∀ a b : WKey, wl a b = true → a.t.ns ≤ b.t.ns
+  not_lt_time : ∀ a b : WKey, wl a b = false → b.t.ns ≤ a.t.ns
 
 theorem WLaws.laws {wl} (W : WLaws wl) : EqvLaws wl where
   refl a := by rw [W.eqv_iff]; exact ⟨rfl, keq_refl _⟩
@@ -123,6 +124,11 @@ theorem wlessFixed_laws : WLaws wlessFixed where
     split
     · rename_i h; simp at h; intro _; omega
     · simp; omega
+  not_lt_time a b := by
+    simp only [wlessFixed]
+    split
+    · rename_i h; simp at h; intro _; omega
+    · simp
 
 /-- the shipped `Less` is *not* such an order: same instant, different location, different group keys -/
 theorem wlessRaw_not_laws : ¬ WLaws wlessRaw := by
